@@ -17,6 +17,7 @@ import (
 	"strings"
 	"sync"
 	"syscall"
+	"time"
 )
 
 var (
@@ -25,6 +26,13 @@ var (
 	atLabel string
 	atOcc   int
 	armFile = os.Getenv("VERIF_CRASH_ARM")
+	// pause mode (used to interleave requests with a state transition): VERIF_PAUSE_AT="<label>#<n>" makes the process
+	// sleep VERIF_PAUSE_MS milliseconds at that point, after creating the file VERIF_PAUSE_FLAG
+	pauseLabel string
+	pauseOcc   int
+	pauseMs    int
+	pauseFlag  = os.Getenv("VERIF_PAUSE_FLAG")
+	pauseCnt   = map[string]int{}
 	logFile *os.File
 	armed   bool
 )
@@ -34,6 +42,13 @@ func init() {
 		if i := strings.LastIndex(s, "#"); i > 0 {
 			atLabel = s[:i]
 			atOcc, _ = strconv.Atoi(s[i+1:])
+		}
+	}
+	if s := os.Getenv("VERIF_PAUSE_AT"); s != "" {
+		if i := strings.LastIndex(s, "#"); i > 0 {
+			pauseLabel = s[:i]
+			pauseOcc, _ = strconv.Atoi(s[i+1:])
+			pauseMs, _ = strconv.Atoi(os.Getenv("VERIF_PAUSE_MS"))
 		}
 	}
 	if p := os.Getenv("VERIF_CRASH_LOG"); p != "" {
@@ -81,6 +96,18 @@ func die() {
 
 // Point is a crash point before a persistence operation.
 func Point(label string) {
+	if pauseLabel != "" && label == pauseLabel {
+		mu.Lock()
+		pauseCnt[label]++
+		now := pauseCnt[label] == pauseOcc
+		mu.Unlock()
+		if now {
+			if pauseFlag != "" {
+				_ = os.WriteFile(pauseFlag, []byte(label), 0o644)
+			}
+			time.Sleep(time.Duration(pauseMs) * time.Millisecond)
+		}
+	}
 	if hit(label) {
 		die()
 	}
